@@ -146,6 +146,25 @@ def storeLine (st : StoreRun) (lineNo : Nat) (line : String) : Except String (St
   | "svcset" :: _ => .ok (st, [])
   | "svcdel" :: _ => .ok (st, [])
   | ["cachefail", on] => .ok ({ st with wfail := on == "on=1" }, [])
+  | "cadence" :: rest =>
+    -- a store with the real ticker under virtual time: when the background polls arrived
+    let fs := fields rest
+    let get := fun k => (lookup fs k).getD ""
+    let i : Int := (get "interval").toInt?.getD 0
+    let polls : List Int := ((get "polls").splitOn ",").filterMap String.toInt?
+    let tag := s!"line={lineNo} interval={i}ns polls={get "polls"}"
+    let gaps : List Int := (polls.zip (0 :: polls)).map fun (a, b) => a - b
+    let within := fun (g : Int) => i - i / 10 ≤ g && g ≤ i + i / 10
+    let o1 := if polls.length ≥ 3 && gaps.all within then [] else
+      [s!"PROPFAIL C11 cadence {tag} background polls must come once per interval within a tenth of it on either side"]
+    -- model: the period is the generated expression for some draw in range, the same for every tick
+    let p1 := polls.headD 0
+    let r := p1 - i + Int.tdiv i 10
+    let o2 := if !Setec.Facts.gen_pollPeriod_ok then [] else
+      if 0 ≤ r && r < Int.tdiv (2 * i) 10 && Setec.Facts.gen_pollPeriod i (fun _ => r) == p1 && gaps.all (· == p1) then [] else
+      [s!"DIVERGE cadence_model {tag} no draw in range makes the generated period expression equal to the observed period"]
+    .ok ({ st with steps := st.steps + 1, fails := st.fails + o1.length, diverges := st.diverges + o2.length,
+                   cover := bump st.cover s!"cadence:{i}" }, o1 ++ o2)
   | "nopoller" :: _ =>
     .ok ({ st with fails := st.fails + 2 },
          [s!"PROPFAIL C11 background_poll_runs hist={st.hist} line={lineNo} no background poller took the tick",
